@@ -1,3 +1,302 @@
-/-! # C19 — property theorems (stub: filled in when the property's model is built) -/
+import ScenicModel.Lemmas.Choose
+import ScenicModel.Gen.Choose
+
+/-!
+# C19 — `do choose` / `do shuffle` and run-time random values follow the stated probabilities
+
+Model: `ScenicModel/Model/Choose.lean` (`pickEnabled`, `doChoose`, `doShuffle`, `drawDist`, `exec`), parametric
+in the constants `Config` that `tools/translate/choose.py` regenerates from `/repo` into `Gen/Choose.lean`.
+All theorems are for every list of items, every weight assignment within the stated hypotheses, every
+step-dependent precondition table `env.pre`, every running-time table `env.dur`, every start step `t`
+(no bounds); probabilities are exact rationals.  `Dist.prob d P` is the probability of event `P`.
+
+Spec vocabulary (defined in `Lemmas/Choose.lean`):
+* `enabledAt env t items`   — the listed items whose preconditions hold at step `t`;
+* `totalW l`                — sum of the weights of `l`;
+* `chooseOutcome env t x`   — "exactly `x` ran, started at `t`, and the statement finished";
+* `orderOutcome env t order`— "the items ran to completion in exactly this order, first start at `t`";
+* `pickProb env t rem x = if x ∈ enabledAt env t rem then x.weight / totalW (enabledAt env t rem) else 0`;
+* `orderProb env t rem (x₁ :: x₂ :: …) = pickProb env t rem x₁ * pickProb env t₂ (rem.erase x₁) x₂ * …`
+  with `t₂ = t + env.dur x₁.id t`, … (each factor conditions on the not-yet-run items and on the step at which that
+  pick happens);
+* `chainProb` / `indepProb` — chain-rule product / product of stated marginals for run-time draws.
+
+Corner recorded (it is what the code does, see `choose_single_ignores_weight`): when exactly one item is enabled
+its weight is not looked at — an item of weight 0 (or of negative weight) still runs.  The `…_prob` theorems
+therefore carry the hypothesis that the enabled weights are non-negative with positive sum, under which
+"probability proportional to weight" is well defined.
+-/
 namespace Scenic.C19
+open Scenic.Choose
+
+/-! ## side conditions on the regenerated data -/
+
+/-- the constants read from `_invokeSubBehavior` / `Options.__init__` are the ones the theorems need:
+tuple-form weight 1, the shortcut fires for exactly one enabled item and takes element 0, zero weights dropped -/
+theorem gen_config_wf : Scenic.Gen.chooseConfig.WF := by decide
+
+/-! ## `do choose` -/
+
+/-- **choose_prob.** With distinct items, non-negative enabled weights and positive total enabled weight,
+`do choose` runs item `x` (and only `x`) with probability `weight x / Σ_enabled weight` if `x`'s preconditions hold
+at the current step, and with probability 0 otherwise. -/
+theorem choose_prob (c : Config) (hc : c.WF) (env : Env) (t : Nat) (items : List Item)
+    (hid : (items.map (·.id)).Nodup)
+    (hnn : ∀ x ∈ enabledAt env t items, 0 ≤ x.weight)
+    (hpos : enabledAt env t items ≠ [] → 0 < totalW (enabledAt env t items))
+    (x : Item) (hx : x ∈ items) :
+    Dist.prob (doChoose c env t items) (fun o => decide (o = chooseOutcome env t x)) =
+      if x ∈ enabledAt env t items then x.weight / totalW (enabledAt env t items) else 0 :=
+  choose_prob_aux c hc env t items hid hnn hpos x hx
+
+example : Dist.prob (doChoose ⟨1, 1, 0, true⟩ ⟨fun i t => i != 3 || t ≥ 5, fun _ _ => 2⟩ 0 [⟨1, 2⟩, ⟨2, 3⟩, ⟨3, 1⟩])
+    (fun o => decide (o = chooseOutcome ⟨fun i t => i != 3 || t ≥ 5, fun _ _ => 2⟩ 0 ⟨2, 3⟩)) = 3 / 5 := by
+  decide +kernel
+
+/-- **choose on the generated constants.** -/
+theorem choose_prob_gen (env : Env) (t : Nat) (items : List Item) (hid : (items.map (·.id)).Nodup)
+    (hnn : ∀ x ∈ enabledAt env t items, 0 ≤ x.weight)
+    (hpos : enabledAt env t items ≠ [] → 0 < totalW (enabledAt env t items)) (x : Item) (hx : x ∈ items) :
+    Dist.prob (doChoose Scenic.Gen.chooseConfig env t items) (fun o => decide (o = chooseOutcome env t x)) =
+      if x ∈ enabledAt env t items then x.weight / totalW (enabledAt env t items) else 0 :=
+  choose_prob _ gen_config_wf env t items hid hnn hpos x hx
+
+/-- **choose_exactly_one.** Every outcome of `do choose` that finishes ran exactly one item, that item is listed,
+its preconditions held at the step of the choice, and the statement ends when that item ends (any `Config`). -/
+theorem choose_exactly_one (c : Config) (env : Env) (t : Nat) (items : List Item) (o : Outcome) (q : Rat)
+    (h : (o, q) ∈ doChoose c env t items) (hs : o.status = .done) :
+    ∃ x, x ∈ items ∧ env.pre x.id t = true ∧ o = chooseOutcome env t x := by
+  unfold doChoose at h
+  rw [Dist.mem_bind] at h
+  obtain ⟨p, q1, q2, hp, ho, _⟩ := h
+  by_cases hp' : ∃ x, p = .picked x
+  · obtain ⟨x, rfl⟩ := hp'
+    have hx := mem_enabledAt.mp (pick_support c env t items x q1 hp)
+    simp only [chooseStep] at ho
+    rw [Dist.mem_pure] at ho
+    exact ⟨x, hx.1, hx.2, ho.1⟩
+  · have hnp : ∀ x, p ≠ .picked x := fun x e => hp' ⟨x, e⟩
+    rw [chooseStep_fail _ _ _ hnp, Dist.mem_pure] at ho
+    obtain ⟨rfl, _⟩ := ho
+    exact absurd hs (failOutcome_status t p)
+
+/-- **choose_deadlock_rejects.** No listed item enabled ⇒ the simulation is rejected (probability 1). -/
+theorem choose_deadlock_rejects (c : Config) (env : Env) (t : Nat) (items : List Item)
+    (h : enabledAt env t items = []) : doChoose c env t items = Dist.pure ⟨[], t, .rejected⟩ := by
+  unfold doChoose
+  rw [pickEnabled_nil c env t items h]
+  simp [Dist.bind, Dist.pure, chooseStep, failOutcome]
+
+example : enabledAt ⟨fun _ t => t ≥ 2, fun _ _ => 1⟩ 0 [⟨1, 1⟩, ⟨2, 1⟩] = [] := by decide
+
+/-- **corner (recorded).** With exactly one enabled item its weight is ignored: it runs with probability 1 whatever its
+weight, including weight 0 and negative weights. -/
+theorem choose_single_ignores_weight (c : Config) (hc : c.WF) (env : Env) (t : Nat) (items : List Item) (x : Item)
+    (h : enabledAt env t items = [x]) : doChoose c env t items = Dist.pure (chooseOutcome env t x) := by
+  unfold doChoose
+  rw [pickEnabled_single c hc env t items x h]
+  simp [Dist.bind, Dist.pure, chooseStep, chooseOutcome]
+
+example : doChoose ⟨1, 1, 0, true⟩ ⟨fun i _ => i == 7, fun _ _ => 3⟩ 4 [⟨7, 0⟩, ⟨8, 5⟩]
+    = Dist.pure (chooseOutcome ⟨fun i _ => i == 7, fun _ _ => 3⟩ 4 ⟨7, 0⟩) := by decide +kernel
+
+/-- **tuple form is uniform.** `do choose A, B, …` gives every enabled item probability `1 / #enabled`. -/
+theorem choose_tuple_uniform (c : Config) (hc : c.WF) (env : Env) (t : Nat) (ids : List Nat) (hid : ids.Nodup)
+    (i : Nat) (hi : i ∈ ids) (hen : env.pre i t = true) :
+    Dist.prob (doChoose c env t (tupleItems c ids)) (fun o => decide (o = chooseOutcome env t ⟨i, 1⟩)) =
+      1 / ((enabledAt env t (tupleItems c ids)).length : Rat) := by
+  have hdw : (c.defaultWeight : Rat) = 1 := by rw [hc.1]; simp
+  have hitems : tupleItems c ids = ids.map fun i => (⟨i, 1⟩ : Item) := by
+    unfold tupleItems; rw [hdw]
+  have hids : ((tupleItems c ids).map (·.id)) = ids := by
+    rw [hitems, List.map_map]; simp [Function.comp_def]
+  have hw1 : ∀ x ∈ tupleItems c ids, x.weight = 1 := by
+    intro x hx; rw [hitems] at hx; simp only [List.mem_map] at hx; obtain ⟨j, _, rfl⟩ := hx; rfl
+  have hmem : (⟨i, 1⟩ : Item) ∈ tupleItems c ids := by
+    rw [hitems]; exact List.mem_map.mpr ⟨i, hi, rfl⟩
+  have hen' : (⟨i, 1⟩ : Item) ∈ enabledAt env t (tupleItems c ids) := mem_enabledAt.mpr ⟨hmem, hen⟩
+  have htot : totalW (enabledAt env t (tupleItems c ids)) = ((enabledAt env t (tupleItems c ids)).length : Rat) := by
+    have : ∀ l : List Item, (∀ x ∈ l, x.weight = 1) → totalW l = (l.length : Rat) := by
+      intro l hl
+      induction l with
+      | nil => simp [totalW]
+      | cons a l ih =>
+        have ha := hl a (List.mem_cons_self)
+        have := ih (fun x hx => hl x (List.mem_cons_of_mem _ hx))
+        simp only [totalW, List.map_cons, List.sum_cons, List.length_cons] at this ⊢
+        rw [this, ha]; push_cast; ring
+    exact this _ (fun x hx => hw1 x (mem_enabledAt.mp hx).1)
+  rw [choose_prob c hc env t (tupleItems c ids) (by rw [hids]; exact hid)
+    (fun x hx => by rw [hw1 x (mem_enabledAt.mp hx).1]; exact zero_le_one)
+    (fun hne => by
+      rw [htot]
+      have : 0 < (enabledAt env t (tupleItems c ids)).length := List.length_pos_iff.mpr hne
+      exact_mod_cast this)
+    ⟨i, 1⟩ hmem, if_pos hen', htot]
+
+/-! ## `do shuffle` -/
+
+/-- **shuffle_each_once.** Every finished outcome of `do shuffle` ran every listed item exactly once: the sequence of
+started items is a permutation of the listed ones (any `Config`, any weights, any preconditions). -/
+theorem shuffle_each_once (c : Config) (env : Env) (t : Nat) (items : List Item) (o : Outcome) (q : Rat)
+    (h : (o, q) ∈ doShuffle c env t items) (hs : o.status = .done) :
+    (o.log.map (·.val)).Perm (items.map fun x => (x.id : Int)) :=
+  shuffleAux_perm c env items.length t items rfl o q h hs
+
+/-- **shuffle_order_prob.** With distinct items of positive weight, the probability that the items run in exactly
+the order `order` is the product formula `orderProb`: at each pick, `weight / Σ weight` over the not-yet-run items
+whose preconditions hold *at the step of that pick* (0 if the next item of `order` is not enabled then). -/
+theorem shuffle_order_prob (c : Config) (hc : c.WF) (env : Env) (t : Nat) (items : List Item)
+    (hid : (items.map (·.id)).Nodup) (hw : ∀ x ∈ items, 0 < x.weight)
+    (order : List Item) (ho : ∀ y ∈ order, y ∈ items) :
+    Dist.prob (doShuffle c env t items) (fun o => decide (o = orderOutcome env t order)) =
+      orderProb env t items order :=
+  shuffleAux_order_prob c hc env items (id_inj items hid) hw items.length t items rfl
+    (nodup_of_ids items hid) (fun _ h => h) order ho
+
+theorem shuffle_order_prob_gen (env : Env) (t : Nat) (items : List Item)
+    (hid : (items.map (·.id)).Nodup) (hw : ∀ x ∈ items, 0 < x.weight)
+    (order : List Item) (ho : ∀ y ∈ order, y ∈ items) :
+    Dist.prob (doShuffle Scenic.Gen.chooseConfig env t items) (fun o => decide (o = orderOutcome env t order)) =
+      orderProb env t items order :=
+  shuffle_order_prob _ gen_config_wf env t items hid hw order ho
+
+/-- first factor of the product formula, spelled out -/
+theorem orderProb_cons (env : Env) (t : Nat) (rem : List Item) (x : Item) (rest : List Item) :
+    orderProb env t rem (x :: rest) =
+      (if x ∈ enabledAt env t rem then x.weight / totalW (enabledAt env t rem) else 0) *
+        orderProb env (t + env.dur x.id t) (rem.erase x) rest := rfl
+
+-- item 6 only becomes enabled at step 3; item 4 runs 2 steps, item 5 runs 0 steps
+example : orderProb ⟨fun i t => i != 6 || t ≥ 3, fun i _ => if i == 4 then 2 else if i == 5 then 0 else 1⟩ 2
+    [⟨4, 2⟩, ⟨5, 3⟩, ⟨6, 1⟩] [⟨4, 2⟩, ⟨6, 1⟩, ⟨5, 3⟩] = 1 / 10 := by decide +kernel
+
+/-- **deadlock_rejects (shuffle).** If at some pick items remain but none is enabled, the simulation is rejected. -/
+theorem shuffle_deadlock_rejects (c : Config) (env : Env) (n t : Nat) (rem : List Item) (hne : rem ≠ [])
+    (h : enabledAt env t rem = []) : shuffleAux c env (n + 1) t rem = Dist.pure ⟨[], t, .rejected⟩ := by
+  rw [shuffleAux_succ c env n t rem hne, pickEnabled_nil c env t rem h]
+  simp [Dist.bind, Dist.pure, shuffleStep, failOutcome]
+
+/-- **shuffle_reject_only_deadlock.** `do shuffle` rejects the simulation *only* at a deadlock: in every rejected
+outcome some items have not run yet (`rest ≠ []`; run ones ++ rest = the listed ones), and at the step of the rejection
+none of them is enabled with a non-zero weight (no enabled one at all when weights are positive). -/
+theorem shuffle_reject_only_deadlock (c : Config) (hc : c.WF) (env : Env) (t : Nat) (items : List Item)
+    (o : Outcome) (q : Rat) (h : (o, q) ∈ doShuffle c env t items) (hs : o.status = .rejected) :
+    ∃ rest : List Item, rest ≠ [] ∧
+      ((o.log.map (·.val)) ++ rest.map (fun x => (x.id : Int))).Perm (items.map fun x => (x.id : Int)) ∧
+      ∀ x ∈ enabledAt env o.endTime rest, x.weight = 0 :=
+  shuffleAux_rejected c hc env items.length t items rfl o q h hs
+
+-- a shuffle that deadlocks after its first item: item 2 is enabled only at step 0, item 1 runs one step
+example : (⟨[⟨0, 0, 1⟩], 1, .rejected⟩, (1 / 2 : Rat)) ∈
+    doShuffle ⟨1, 1, 0, true⟩ ⟨fun i t => i == 1 || t == 0, fun _ _ => 1⟩ 0 [⟨1, 1⟩, ⟨2, 1⟩] := by decide +kernel
+
+/-! ## the model's outcomes form a probability distribution -/
+
+/-- **exec_mass.** For every program (sequence of waits, run-time draws, `do choose`, `do shuffle`) the outcome
+distribution has total mass 1; hence `P(rejected or error) = 1 − Σ P(finished logs)`. -/
+theorem exec_total_mass (c : Config) (hc : c.WF) (env : Env) (ss : List Stmt) (t : Nat) (vals : List Int) :
+    Dist.mass (exec c env ss t vals) = 1 := exec_mass c hc env ss t vals
+
+theorem shuffle_total_mass (c : Config) (hc : c.WF) (env : Env) (t : Nat) (items : List Item) :
+    Dist.mass (doShuffle c env t items) = 1 := shuffleAux_mass c hc env _ _ _
+
+/-! ## run-time random values -/
+
+/-- **runtime_draws_chain.** A body consisting of `n` distribution evaluations produces the value sequence `vs` with
+probability `Π_k P_k(v_k | v_1 … v_{k-1})` where `P_k` is the *stated* distribution of the `k`-th expression evaluated
+with the values drawn before it (and 0 if `vs` has the wrong length). -/
+theorem runtime_draws_chain (c : Config) (env : Env) (ss : List DrawSpec) (vals : List Int) (t : Nat) (vs : List Int) :
+    Dist.prob (exec c env (ss.map Stmt.draw) t vals)
+      (fun o => decide (o = ⟨drawEvents t vs, t + ss.length, .done⟩)) = chainProb c vals ss vs :=
+  exec_draws_chain c env ss vals t vs
+
+/-- **runtime_draws_indep.** If the expressions do not mention earlier draws, the joint probability is the product of
+the stated marginals — whatever was drawn earlier in the simulation (`vals` arbitrary): every evaluation is a
+fresh, independent sample. -/
+theorem runtime_draws_indep (c : Config) (env : Env) (ss : List DrawSpec) (hcl : ∀ s ∈ ss, s.closed = true)
+    (vals : List Int) (t : Nat) (vs : List Int) :
+    Dist.prob (exec c env (ss.map Stmt.draw) t vals)
+      (fun o => decide (o = ⟨drawEvents t vs, t + ss.length, .done⟩)) = indepProb c ss vs := by
+  rw [runtime_draws_chain, chainProb_indep c ss vals vs hcl]
+
+example : indepProb ⟨1, 1, 0, true⟩ [.range (.const 1) (.const 3), .weighted [(7, 1), (8, 3)], .range (.const 1) (.const 3)]
+    [2, 8, 2] = 1 / 12 := by decide +kernel
+
+/-- stated marginal of `DiscreteRange(l, h)`: uniform on `l..h` -/
+theorem runtime_range_uniform (c : Config) (vals : List Int) (l h v : Int) (hlh : l ≤ h) :
+    Dist.prob (drawDist c vals (.range (.const l) (.const h))) (fun p => decide (p = Pick.picked v)) =
+      if l ≤ v ∧ v ≤ h then 1 / ((h - l + 1 : Int) : Rat) else 0 := range_prob c vals l h v hlh
+
+/-- stated marginal of `Options({v: w, …})`: value `v` has probability (total weight given to `v`) / (total weight) -/
+theorem runtime_options_weighted (c : Config) (hc : c.WF) (vals : List Int) (opts : List (Int × Rat))
+    (hnn : ∀ x ∈ opts, 0 ≤ x.2) (hpos : 0 < sumW opts) (v : Int) :
+    Dist.prob (drawDist c vals (.weighted opts)) (fun p => decide (p = Pick.picked v)) = wOf v opts / sumW opts :=
+  weightedPick_prob c hc.2.2.2 opts hnn hpos v
+
+/-! ## `random.choices` index computation -/
+
+/-- **choices_interval.** For positive weights, `random.choices(…, cum_weights=accumulate(ws))` maps the raw uniform
+value `u ∈ [0,1)` to index `i` exactly when `u·total` lies in `[w₀+…+w_{i-1}, w₀+…+w_i)` — an interval of
+`u`-length `wᵢ / total`. -/
+theorem choices_interval (ws : List Rat) (hpos : ∀ w ∈ ws, 0 < w) (u : Rat) (h0 : 0 ≤ u) (h1 : u < 1)
+    (i : Nat) (hi : i < ws.length) :
+    choicesIndex ws u = i ↔ (ws.take i).sum ≤ u * ws.sum ∧ u * ws.sum < (ws.take (i + 1)).sum := by
+  have hne : ws ≠ [] := by intro h; rw [h] at hi; simp at hi
+  have htot : 0 < ws.sum := sum_pos_of_pos ws hpos hne
+  have hx0 : (0 : Rat) ≤ u * ws.sum := mul_nonneg h0 (le_of_lt htot)
+  have hxlt : u * ws.sum < 0 + ws.sum := by
+    rw [zero_add]
+    calc u * ws.sum < 1 * ws.sum := by exact mul_lt_mul_of_pos_right h1 htot
+      _ = ws.sum := one_mul _
+  have hlt := bisectRight_lt ws hpos 0 (u * ws.sum) hx0 hxlt
+  have hmin : choicesIndex ws u = bisectRight (cumulative 0 ws) (u * ws.sum) := by
+    unfold choicesIndex
+    exact Nat.min_eq_left (by omega)
+  rw [hmin, bisectRight_cumulative ws hpos 0 (u * ws.sum) hx0 i hi]
+  simp
+
+example : choicesIndex [2, 3, 1] (1 / 2) = 1 := by decide +kernel
+
+/-! ## non-vacuity: the hypotheses of the theorems above hold for concrete, non-trivial data -/
+
+/-- concrete data used by the non-vacuity examples: item 6 only becomes enabled at step 3; item 4 runs 2 steps,
+item 5 runs 0 steps, item 6 one step -/
+def exEnv : Env := ⟨fun i t => i != 6 || t ≥ 3, fun i _ => if i == 4 then 2 else if i == 5 then 0 else 1⟩
+def exItems : List Item := [⟨4, 2⟩, ⟨5, 3⟩, ⟨6, 1⟩]
+
+theorem exItems_pos : ∀ x ∈ exItems, 0 < x.weight := by
+  intro x hx
+  simp only [exItems, List.mem_cons, List.not_mem_nil, or_false] at hx
+  rcases hx with rfl | rfl | rfl <;> decide +kernel
+
+-- the hypotheses of `shuffle_order_prob` hold for this data, and the value is the hand-computed 2/5 · 1/4 · 1
+example : Dist.prob (doShuffle Scenic.Gen.chooseConfig exEnv 2 exItems)
+    (fun o => decide (o = orderOutcome exEnv 2 [⟨4, 2⟩, ⟨6, 1⟩, ⟨5, 3⟩])) = 1 / 10 := by
+  rw [shuffle_order_prob_gen exEnv 2 exItems (by decide) exItems_pos _ (by decide)]
+  decide +kernel
+
+-- the hypotheses of `choose_prob` hold (step 2: items 4 and 5 enabled, 6 not)
+example : Dist.prob (doChoose Scenic.Gen.chooseConfig exEnv 2 exItems)
+    (fun o => decide (o = chooseOutcome exEnv 2 ⟨5, 3⟩)) = 3 / 5 := by
+  rw [choose_prob_gen exEnv 2 exItems (by decide)
+    (fun x hx => le_of_lt (exItems_pos x (mem_enabledAt.mp hx).1))
+    (fun _ => by decide +kernel) ⟨5, 3⟩ (by decide)]
+  decide +kernel
+
+-- `shuffle_each_once` / `choose_exactly_one` speak about a non-empty support
+example : (orderOutcome exEnv 2 [⟨5, 3⟩, ⟨4, 2⟩, ⟨6, 1⟩], (3 / 5 : Rat)) ∈ doShuffle ⟨1, 1, 0, true⟩ exEnv 2 exItems := by
+  decide +kernel
+
+example : (chooseOutcome exEnv 2 ⟨4, 2⟩, (2 / 5 : Rat)) ∈ doChoose ⟨1, 1, 0, true⟩ exEnv 2 exItems := by
+  decide +kernel
+
+-- `runtime_draws_indep`: closed specs exist and give a non-degenerate product
+example : (∀ s ∈ [DrawSpec.range (.const 1) (.const 3), DrawSpec.weighted [(7, 1), (8, 3)]], s.closed = true) := by
+  decide
+
+-- `choices_interval`: weights 2,3,1 — index 1 is selected exactly for u·6 ∈ [2, 5)
+example : choicesIndex [2, 3, 1] (1 / 3) = 1 ∧ choicesIndex [2, 3, 1] (5 / 6) = 2 ∧ choicesIndex [2, 3, 1] (33 / 100) = 0 := by
+  decide +kernel
+
 end Scenic.C19
